@@ -538,6 +538,25 @@ type c03Task struct {
 	NilP  *int    `json:"nilp"`
 }
 
+// root data that is a struct embedding another struct (by value, by pointer): the promoted fields are names of the root
+type c03Root struct {
+	c03Task
+	Own bool
+}
+type C03Emb struct {
+	Flag bool
+	N    int
+	S    string
+}
+type c03RootE struct {
+	C03Emb
+	Own bool
+}
+type c03RootP struct {
+	*C03Emb
+	Own bool
+}
+
 func c03Routes(r *Run, positions []struct {
 	name, coq, tpl string
 	observe        func(out string) bool
@@ -585,6 +604,37 @@ func c03Routes(r *Run, positions []struct {
 			if len(seen) > 1 {
 				r.Fail("one value is truthy by one route or position and falsy by another", map[string]string{"oracle": "routes-uniform", "route": rt.a + "~" + rt.b},
 					map[string]any{"data": fmt.Sprintf("Done=&%v Count=&%d Name=&%q Flag=%v N=%d S=%q U=&%d", d.b, d.n, d.s, d.b, d.n, d.s, d.u), "verdicts": verdict})
+			}
+		}
+		// the same values as fields promoted from an embedded struct of the root data, next to a field of the root's own
+		for name, root := range map[string]any{"embedded": c03RootE{C03Emb: C03Emb{Flag: d.b, N: d.n, S: d.s}, Own: d.b}, "embedded-pointer": c03RootP{C03Emb: &C03Emb{Flag: d.b, N: d.n, S: d.s}, Own: d.b},
+			"pointer-to-root": &c03RootE{C03Emb: C03Emb{Flag: d.b, N: d.n, S: d.s}, Own: d.b}} {
+			for _, rt := range []route{{"Flag", "Own"}, {"N", "N"}, {"S", "S"}} {
+				verdict := map[string]string{}
+				for _, sp := range []string{rt.a, rt.b} {
+					for _, p := range positions {
+						if p.coq == "PNotIf" || strings.Contains(p.tpl, `"yes"`) {
+							continue // (the second: a position whose template reads a helper name this root does not have)
+						}
+						tpl := strings.NewReplacer(`"v"`, `"`+sp+`"`, `"!v"`, `"!`+sp+`"`, `!(v)`, `!(`+sp+`)`, `{on: v}`, `{on: `+sp+`}`).Replace(p.tpl)
+						out, err := c03RenderAny(tpl, root)
+						r.Eval("route-root:"+name+":"+sp+":"+p.name+fmt.Sprint(d), true, nil)
+						r.Count("stream:routes(oracle only)")
+						if err != nil {
+							verdict[sp+" @ "+p.name] = "error"
+							continue
+						}
+						verdict[sp+" @ "+p.name] = fmt.Sprint(p.observe(out))
+					}
+				}
+				seen := map[string]bool{}
+				for _, v := range verdict {
+					seen[v] = true
+				}
+				if len(seen) > 1 {
+					r.Fail("one value is truthy by one route or position and falsy by another", map[string]string{"oracle": "routes-uniform", "route": name + ":" + rt.a + "~" + rt.b},
+						map[string]any{"root_data": name, "data": fmt.Sprintf("Flag=%v N=%d S=%q Own=%v", d.b, d.n, d.s, d.b), "verdicts": verdict})
+				}
 			}
 		}
 	}
